@@ -2,10 +2,10 @@
 # time every model-checking configuration (quick and thorough constants); prints: config, exit, wall seconds, states
 cd "$(dirname "$0")/../spec"
 W=${VERIF_CPUS:-16}
-for c in MC_Line MC_Hist MC_Args MC_Flags MC_Codes MC_Sched MC_Ring MC_Hold MC_HoldNest MC_Mutex MC_List MC_Live MC_Ext MC_Threads MC_FnNum MC_FnBuf; do
-  for v in "" _t; do
+for c in MC_Line MC_Line7 MC_Hist MC_Args MC_Flags MC_Codes MC_Sched MC_Ring MC_Hold MC_HoldNest MC_Mutex MC_List MC_Live MC_Ext MC_Threads MC_FnNum MC_FnBuf; do
+  for v in ${MCTIME_VARIANTS:-"" _t}; do
     cfg=$c$v; [ -f $cfg.cfg ] || continue
-    case $c in MC_HoldNest) mod=MC_Hold;; MC_Threads) mod=CatThreads;; MC_FnNum|MC_FnBuf) mod=MC_Fn;; *) mod=$c;; esac
+    case $c in MC_HoldNest) mod=MC_Hold;; MC_Line7) mod=MC_Line;; MC_Threads) mod=CatThreads;; MC_FnNum|MC_FnBuf) mod=MC_Fn;; *) mod=$c;; esac
     md=$(mktemp -d /var/tmp/mctime-XXXX); s=$(date +%s)
     out=$(JAVA_TOOL_OPTIONS="-Xmx12g -Xss512m -XX:+UseParallelGC" timeout 3000 tlc -noGenerateSpecTE -workers $W -metadir $md -config $cfg.cfg $mod.tla 2>&1); rc=$?
     rm -rf $md
